@@ -266,6 +266,7 @@ func libStatFS(g *FuncGen, c *ast.CallExpr, callee *types.Func, st *State) []Val
 	g.assume(st, fmt.Sprintf("(= (= %s 0) (not (= %s 0)))", err.T, info.T))
 	g.assume(st, fmt.Sprintf("(=> (= %s 0) (and (not (isAbsent %s %s)) (= (infoIsDir %s) (isDir %s %s))))", err.T, fs, p.T, info.T, fs, p.T))
 	g.assume(st, fmt.Sprintf("(=> (isNotExist %s) (isAbsent %s %s))", err.T, fs, p.T))
+	g.assume(st, fmt.Sprintf("(=> (isNotDirErr %s) (isAbsent %s %s))", err.T, fs, p.T))
 	g.assume(st, fmt.Sprintf("(=> (not (isAbsent %s %s)) (= %s 0))", fs, p.T, err.T))
 	return []Val{info, err}
 }
